@@ -13,6 +13,7 @@ Only property theorems live here (helper lemmas: `Lemmas/Labels*.lean`, `Lemmas/
 import PdfVerif.Lemmas.Labels
 import PdfVerif.Lemmas.LabelRanges
 import PdfVerif.Lemmas.LabelsExtra
+import PdfVerif.Lemmas.LabelsGen
 import PdfVerif.Lemmas.Outline
 import PdfVerif.Lemmas.OutlineGraph
 import PdfVerif.Lemmas.NameTree
@@ -130,6 +131,78 @@ theorem alpha_bijective (n : Nat) (h : 0 < n) :
   · unfold alphaValue
     rw [alphaLoop_value n n [] (Nat.le_refl n)]
     rfl
+
+/-! ### The translated numeral code (`Gen/LabelCode.lean`, regenerated from utils.py on every run)
+
+`format_int_roman` / `format_int_alpha` assembled from the TRANSLATED assert, `while` test, loop
+body and tail (only the `while` construct itself is hand-written glue) are the hand models for
+every integer — so each theorem above is a theorem about the translated straight-line code, and an
+edit of a loop body in utils.py breaks these proofs. -/
+
+open PdfVerif.LabelsGen PdfVerif.Gen.LabelCode in
+/-- ONE pass through the translated body of the `while` loop of `format_int_roman`, in ANY state
+(any value, any index — including `ROMAN_ONES[index]` out of range — any partial result), is the
+hand model's step; IndexError is IndexError. -/
+theorem roman_body_translated (n i : Nat) (r : List Text) :
+    liftErr (format_int_roman_body (n : Int) (i : Int) r) =
+      (romanStep i (n % 10) r).map (fun r' => (((n / 10 : Nat) : Int), (i : Int) + 1, r')) :=
+  PdfVerif.Lemmas.LabelsGen.roman_body_eq n i r
+
+open PdfVerif.LabelsGen in
+/-- The translated `format_int_roman` is the hand model for EVERY integer (assertion included). -/
+theorem roman_translated (v : Int) : genFormatIntRoman v = formatIntRoman v :=
+  PdfVerif.Lemmas.LabelsGen.genFormatIntRoman_eq v
+
+open PdfVerif.LabelsGen in
+/-- Hence the translated code writes the subtractive-notation numeral for every `0 < n < 4000`,
+never exhausts its pass budget there, and raises AssertionError everywhere else. -/
+theorem roman_translated_correct (n : Nat) (h0 : 0 < n) (h1 : n < 4000) :
+    genFormatIntRoman (n : Int) = .ok (Spec.Labels.romanAux Spec.Labels.romanTable n) := by
+  rw [roman_translated]; exact roman_correct n h0 h1
+
+open PdfVerif.LabelsGen in
+theorem roman_translated_outside (v : Int) (h : v ≤ 0 ∨ 4000 ≤ v) :
+    genFormatIntRoman v = .error .assertion := by
+  rw [roman_translated]; exact roman_outside v h
+
+open PdfVerif.LabelsGen PdfVerif.Gen.LabelCode in
+/-- ONE pass through the translated body of the `while` loop of `format_int_alpha`
+(`divmod(value - 1, len(string.ascii_lowercase))`, `string.ascii_lowercase[remainder]`), for every
+positive value and partial result: never an IndexError. -/
+theorem alpha_body_translated (n : Nat) (h : 0 < n) (r : List Text) :
+    liftErr (format_int_alpha_body (n : Int) r) =
+      .ok ((((n - 1) / 26 : Nat) : Int), r ++ [[97 + (n - 1) % 26]]) :=
+  PdfVerif.Lemmas.LabelsGen.alpha_body_eq n h r
+
+open PdfVerif.LabelsGen in
+/-- The translated `format_int_alpha` is the hand model for EVERY integer (assertion included). -/
+theorem alpha_translated (v : Int) : genFormatIntAlpha v = formatIntAlpha v :=
+  PdfVerif.Lemmas.LabelsGen.genFormatIntAlpha_eq v
+
+open PdfVerif.LabelsGen in
+/-- Hence, for EVERY positive value, the translated code returns the numeral whose reading in
+bijective base 26 is the value (and for 28 it returns `ab`, not Table 159's `bb`). -/
+theorem alpha_translated_bijective (n : Nat) (h : 0 < n) :
+    ∃ t, genFormatIntAlpha (n : Int) = .ok t ∧ alphaValue t = n := by
+  rw [alpha_translated]; exact alpha_bijective n h
+
+open PdfVerif.LabelsGen in
+theorem alpha_translated_cex : genFormatIntAlpha 28 = .ok [97, 98] := by
+  rw [alpha_translated]; exact alpha_cex_values.1
+
+/-- Non-vacuity: the translated code evaluated by the kernel — numerals with every kind of digit
+(9, 4, ≥ 5, < 5), the assertion, the loop body with an index past the table (IndexError), letters. -/
+example : (PdfVerif.LabelsGen.genFormatIntRoman 3949).toOption = some [109, 109, 109, 99, 109, 120, 108, 105, 120] := by
+  decide +kernel
+example : (PdfVerif.LabelsGen.genFormatIntRoman 1678).toOption = some [109, 100, 99, 108, 120, 120, 118, 105, 105, 105] := by
+  decide +kernel
+example : (PdfVerif.LabelsGen.genFormatIntRoman 4000).toOption = none := by decide +kernel
+example : (PdfVerif.LabelsGen.liftErr (PdfVerif.Gen.LabelCode.format_int_roman_body 9 3 [])).toOption = none := by
+  decide +kernel
+example : (PdfVerif.LabelsGen.liftErr (PdfVerif.Gen.LabelCode.format_int_roman_body 47 1 [[105]])).toOption
+    = some (4, 2, [[108], [120, 120], [105]]) := by decide +kernel
+example : (PdfVerif.LabelsGen.genFormatIntAlpha 703).toOption = some [97, 97, 97] := by decide +kernel
+example : (PdfVerif.LabelsGen.genFormatIntAlpha 0).toOption = none := by decide +kernel
 
 /-- The loop bound of the letters model is never the reason it stops: any fuel `≥ value` gives
 the same result (the code's `while value != 0` terminates since `(value − 1) / 26 < value`). -/
